@@ -70,32 +70,41 @@ def vh_stage(engine, quick=4, thorough=16, extra=(), timeout_q=1500, timeout_t=7
             return [D.VH, engine, "--replay-case"] + case.split("/")
 
         case_limit = int(os.environ.get("VH_CASE_LIMIT_S", "90"))
-        confirmations = 0
+        factor = 10 if ctx["thorough"] else 5
+
+        def classify(inc):
+            env = dict(D.ENV)
+            if inc["rc"] == 86:
+                if confirm_hangs and inc.get("confirm"):
+                    # a wall-clock stop is never a verdict by itself: re-run the one case alone with a larger budget
+                    env["VH_CASE_LIMIT_S"] = str(case_limit * factor + 60)
+                    running, rc2 = stacksig.still_running_after(replay_cmd(inc["case"]), env, outdir, case_limit * factor)
+                    if running:
+                        sig, why = stacksig.hang_signature(replay_cmd(inc["case"]), env, outdir)
+                        return ("viol", {"kind": "does_not_terminate", "engine": engine, "sig": sig, "case": inc["case"], "note": f"still running after {case_limit * factor}s alone; {why or ''}"})
+                return ("incon", {"kind": "watchdog_time", "case": inc["case"]})
+            if inc["rc"] == 87:
+                return ("incon", {"kind": "watchdog_memory", "case": inc["case"]})
+            if death_is_violation:
+                env["VH_CASE_LIMIT_S"] = "600"
+                sig, why = stacksig.crash_signature(replay_cmd(inc["case"]), env, outdir)
+                return ("viol", {"kind": "process_death", "engine": engine, "sig": sig, "rc": inc["rc"], "case": inc["case"], "stderr": inc["stderr"][-300:], "note": why})
+            return ("incon", {"kind": "process_death", "case": inc["case"], "rc": inc["rc"]})
+
+        all_inc = []
+        nconf = 0
         for r, incidents in results:
             for inc in incidents:
                 if inc.get("fatal"):
                     raise D.HarnessError(f"engine {engine} shard {r['shard']} died rc={inc['rc']} outside any case; stderr tail:\n{inc['stderr']}")
-                env = dict(D.ENV)
-                if inc["rc"] == 86:
-                    if confirm_hangs and confirmations < 8:
-                        confirmations += 1
-                        # a wall-clock stop is never a verdict by itself: re-run the one case alone with a 10x budget
-                        factor = 10 if ctx["thorough"] else 5
-                        env["VH_CASE_LIMIT_S"] = str(case_limit * factor + 60)
-                        running, rc2 = stacksig.still_running_after(replay_cmd(inc["case"]), env, outdir, case_limit * factor)
-                        if running:
-                            sig, why = stacksig.hang_signature(replay_cmd(inc["case"]), env, outdir)
-                            m_extra_viol.append({"kind": "does_not_terminate", "engine": engine, "sig": sig, "case": inc["case"], "note": f"still running after {case_limit * factor}s alone; {why or ''}"})
-                            continue
-                    m_incon.append({"kind": "watchdog_time", "case": inc["case"]})
-                elif inc["rc"] == 87:
-                    m_incon.append({"kind": "watchdog_memory", "case": inc["case"]})
-                elif death_is_violation:
-                    env["VH_CASE_LIMIT_S"] = "600"
-                    sig, why = stacksig.crash_signature(replay_cmd(inc["case"]), env, outdir)
-                    m_extra_viol.append({"kind": "process_death", "engine": engine, "sig": sig, "rc": inc["rc"], "case": inc["case"], "stderr": inc["stderr"][-300:], "note": why})
-                else:
-                    m_incon.append({"kind": "process_death", "case": inc["case"], "rc": inc["rc"]})
+                if inc["rc"] == 86 and nconf < 12:
+                    inc["confirm"] = True
+                    nconf += 1
+                all_inc.append(inc)
+        with ThreadPoolExecutor(max_workers=12) as ex:
+            for kind, rec in ex.map(classify, all_inc):
+                (m_extra_viol if kind == "viol" else m_incon).append(rec)
+        for r, incidents in results:
             p = os.path.join(outdir, f"{r['shard']}.summary.json")
             with open(p) as f:
                 sums.append(json.load(f))
@@ -231,14 +240,16 @@ register(
 
 register(
     "C14",
-    [vh_stage("c14", 16, 16, confirm_hangs=True, case_limit_s=20)],
+    [vh_stage("c14", 16, 16, confirm_hangs=True, case_limit_s=20), pinned.hang_stage_factory("pinned_c14.json", "C14")],
     "inputs: token-level (delete/duplicate/swap/replace by keyword or delimiter/insert/group delete) and byte-level (truncate at a random offset, bit flip, byte insertion, splice of two sources) mutants of generated programs in every dialect "
     "and of the shipped sources under resources/tests (<= 4 KiB), token soup over the language's keywords and delimiters, random bytes, nesting <= 200; each input goes through every entry point: compile (library path, no-optimise path, CLI derivation), "
     "assemble, disassemble v0/1/2, serialise, deserialise (raw and hex), brun-style run, stepping run, cldb stepping, preprocess (-E), dependency listing, unused-argument check, REPL line by line, and the in-process run/run -O/brun/opc/opd tools. "
     "Oracle: result or error only (a panic is caught and is a violation; a dead shard process is a violation blamed on the input whose BEGIN has no END; a watchdog stop is inconclusive); modern compile errors must lie inside the text they name. "
     "Distinct non-trivial = distinct input bytes that went through all entry points cleanly",
-    assumptions=["8 MiB thread stack (the CLI's main thread)", "REPL error locations are relative to the expression being entered and are not bounds-checked"],
+    assumptions=["8 MiB thread stack (the CLI's main thread)", "REPL error locations are relative to the expression being entered and are not bounds-checked",
+                 "a watchdog stop is confirmed by re-running the one input alone with a 5x (quick) / 10x (thorough) budget before it is called non-termination; non-termination and process deaths are identified by a native-stack signature (entry point / recursion cycle)"],
     min_nontrivial=200,
+    needs=("bins",),
 )
 
 register(
